@@ -20,7 +20,7 @@ PROPERTY = "C05"
 LEVEL = "fault_enumeration"
 RULE = (
     "cases = fault plans on a real local cluster: a job of 2-6 tasks (harness.genjob, with a requested output downstream of the "
-    "victim), 1-2 hosts x 1-2 workers, and one fault: none; or the victim task's body raises / calls sys.exit(k in {0,1,3}) / "
+    "victim), 1-2 hosts x 1-2 workers, and one fault: none; or the victim task's body raises (with a message, with an empty message, bare assert) / calls sys.exit(k in {0,1,3}) / "
     "os._exit / SIGKILLs its own process, before producing any output or between two yields of a multi-output task; or the harness "
     "SIGKILLs/SIGTERMs a chosen helper process (worker i, data server, shm server of a chosen host) once the controller has seen k "
     "events. Oracle: run() ends within the deadline (a time-out is confirmed by a second run with doubled deadline before it counts); "
@@ -50,7 +50,7 @@ MANIFEST = {
     "note": "Fault enumeration over the generated plan space, not a proof; arbitrary crash points inside library code are not reached.",
 }
 
-KINDS = [("raise", None), ("exit", 0), ("exit", 1), ("exit", 3), ("os_exit", 3), ("sigkill", None)]
+KINDS = [("raise", None), ("raise_empty", None), ("assert", None), ("exit", 0), ("exit", 1), ("exit", 3), ("os_exit", 3), ("sigkill", None)]
 
 
 @st.composite
